@@ -15,8 +15,10 @@ for i, a in enumerate(sys.argv):
         tier = sys.argv[i + 1]
     if a == "--count":
         count = int(sys.argv[i + 1])
+f32 = "--f32" in sys.argv
+tdir = os.path.join(ROOT, "target/native-f32" if f32 else "target/native")
 env = dict(os.environ, RUSTFLAGS="--cfg corgi_verif", CARGO_NET_OFFLINE="true")
-p = subprocess.run(["cargo", "build", "--offline", "--bin", "replay", "--target-dir", os.path.join(ROOT, "target/native")],
+p = subprocess.run(["cargo", "build", "--offline", "--bin", "replay", "--target-dir", tdir] + (["--features", "f32"] if f32 else []),
                    cwd=os.path.join(ROOT, "harness"), env=env, stdout=subprocess.PIPE, stderr=subprocess.STDOUT, text=True)
 if p.returncode != 0:
     print(p.stdout[-3000:]); sys.exit(2)
@@ -29,7 +31,7 @@ for o in obs:
         continue
     if "Full" in o["call"]:
         continue
-    r = subprocess.run([os.path.join(ROOT, "target/native/debug/replay"), "--smoke", o["id"], "1", str(count)],
+    r = subprocess.run([os.path.join(tdir, "debug/replay"), "--smoke", o["id"], "1", str(count)],
                        stdout=subprocess.PIPE, stderr=subprocess.STDOUT, text=True)
     try:
         j = json.loads(r.stdout.strip().splitlines()[-1])
